@@ -235,12 +235,16 @@ def prim_raw_geom(s):
     return sg.Polygon([[float(x), float(y)] for x, y in G.shape_ring(s)])
 
 
-def meets_truth(s, ring, exact):
-    """(meets, near) for a primitive raw shape and a raw lanelet ring"""
+CIRC_SIG = "Circle.shapely_object:radius"
+
+
+def meets_truth(s, ring, exact, half=False):
+    """(meets, near) for a primitive raw shape and a raw lanelet ring.  half=True: the disc a Circle really exports
+    (Point.buffer(radius / 2), the recorded finding CIRC_SIG) instead of the disc of its radius"""
     lan = sg.Polygon(ring)
     if s["k"] == "circ":
         d = lan.distance(sg.Point(s["c"]))
-        r = float(s["r"])
+        r = float(s["r"]) / 2 if half else float(s["r"])
         return d <= r, abs(d - r) < DISC_BAND * r + GUARD
     g = prim_raw_geom(s)
     d = lan.distance(g)
@@ -545,6 +549,7 @@ def route_sig(case):
 def judge_net(case, ob):
     out = []
     ob["skip"] = set()  # indices of queries with a near-boundary decision
+    ob["skip_corr"] = set()  # judged by the oracle, but too near a boundary of the model's (exported) geometry
     rs = route_sig(case)
     if ob["err"] is not None:
         return [(f"route:{ob['last']}:raises", f"construction route {case['route']} raises {ob['err']}")]
@@ -583,12 +588,20 @@ def judge_net(case, ob):
             exp = sorted(i for i, (t, _) in truth.items() if t)
             o["exp"] = exp
             r = o["r"]
+            th = {i: meets_truth(s, rg, exact, half=True) for i, rg in rings.items()} if s["k"] == "circ" else None
+            if th is not None and any(n for _, n in th.values()):
+                ob["skip_corr"].add(qi)  # the model (half-radius disc, as the code) decides this one near a boundary
             if r[0] != "ok":
                 out.append((f"find_lanelet_by_shape:{s['k']}:{rs}:raises", f"find_lanelet_by_shape({s}) raises {r[1]}"))
             elif sorted(r[1]) != exp:
-                out.append((f"find_lanelet_by_shape:{s['k']}",
-                            f"find_lanelet_by_shape({s}) = {sorted(r[1])}, brute force = {exp} "
-                            f"(route {[x[0] for x in case['route']]})"))
+                sig = f"find_lanelet_by_shape:{s['k']}"
+                if th is not None:
+                    lo = {i for i, (t, n) in th.items() if t and not n}
+                    hi = {i for i, (t, n) in th.items() if t or n}
+                    if lo <= set(r[1]) <= hi:
+                        sig = CIRC_SIG  # exactly the answer for the half-radius disc the Circle exports
+                out.append((sig, f"find_lanelet_by_shape({s}) = {sorted(r[1])}, brute force = {exp} "
+                                 f"(route {[x[0] for x in case['route']]})"))
         elif q["k"] == "contains":
             truth = {i: pip_truth(r, q["p"]) for i, r in rings.items()}
             if any(n for _, n in truth.values()):
@@ -602,20 +615,51 @@ def judge_net(case, ob):
                     out.append(("Lanelet.contains_points", f"lanelet {i}.contains_points({q['p']}) = {r[1]}, polygon says {t}"))
         elif q["k"] == "obstacles":
             placed = o["placed"]
-            truth = {}
-            near = False
-            for lid, ring in rings.items():
-                ids = []
-                for oid, raw in placed.items():
-                    ts = [meets_truth(m, ring, exact) for m in G.prims(raw)]
-                    if any(n for _, n in ts) and not any(t and not n for t, n in ts):
-                        near = True
-                    if any(t for t, _ in ts):
-                        ids.append(int(oid))
-                truth[lid] = sorted(ids)
+            def scan(half):
+                truth, near = {}, False
+                for lid, ring in rings.items():
+                    ids = []
+                    for oid, raw in placed.items():
+                        ts = [meets_truth(m, ring, exact, half=half) for m in G.prims(raw)]
+                        if any(n for _, n in ts) and not any(t and not n for t, n in ts):
+                            near = True
+                        if any(t for t, _ in ts):
+                            ids.append(int(oid))
+                    truth[lid] = sorted(ids)
+                return truth, near
+            truth, near = scan(False)
             if near:
                 ob["skip"].add(qi)
                 continue
+            has_circ = any(m["k"] == "circ" for raw in placed.values() for m in G.prims(raw))
+
+            def half_bounds():
+                """per lanelet (ids that surely meet, ids that may meet) when every Circle is the half-radius disc it
+                really exports; near-boundary decisions may go either way"""
+                lo, hi = {}, {}
+                for lid, ring in rings.items():
+                    lo[lid], hi[lid] = set(), set()
+                    for oid, raw in placed.items():
+                        ts = [meets_truth(m, ring, exact, half=True) for m in G.prims(raw)]
+                        if any(t and not n for t, n in ts):
+                            lo[lid].add(int(oid))
+                        if any(t or n for t, n in ts):
+                            hi[lid].add(int(oid))
+                return lo, hi
+            hb = half_bounds() if has_circ else None
+            o["hb_maybe"] = {l: sorted(hb[1][l] - hb[0][l]) for l in rings} if hb else {}
+
+            def circ_sig(sig, got_map=None, got_all=None):
+                """a disagreement that is exactly the answer for the half-radius discs the Circles export is the
+                recorded finding CIRC_SIG; anything else keeps its own signature"""
+                if hb is None:
+                    return sig
+                lo, hi = hb
+                if got_map is not None:
+                    ok = all(lo[l] <= set(got_map.get(l, ())) <= hi[l] for l in rings)
+                else:
+                    ok = set().union(*lo.values()) <= set(got_all) <= set().union(*hi.values())
+                return CIRC_SIG if ok else sig
             o["exp"] = truth
             kinds = "+".join(sorted({m["k"] for raw in placed.values() for m in G.prims(raw)}))
             for lid, exp in truth.items():
@@ -625,19 +669,19 @@ def judge_net(case, ob):
                 elif sorted(r[1]) != exp:
                     bad = sorted(set(r[1]) ^ set(exp))
                     bk = "+".join(sorted({m["k"] for b in bad for m in G.prims(placed[b])}))
-                    out.append((f"Lanelet.get_obstacles:{bk}",
+                    out.append((circ_sig(f"Lanelet.get_obstacles:{bk}", got_map={**{l: (o["per"][l][1] if o["per"][l][0] == "ok" else []) for l in rings}}),
                                 f"lanelet {lid}.get_obstacles = {sorted(r[1])}, brute force = {exp}; obstacles {placed}"))
             expmap = {k: v for k, v in truth.items() if v}
             if o["map"][0] != "ok":
                 out.append((f"map_obstacles_to_lanelets:raises:{o['map'][1]}", f"raises {o['map'][1]} ({kinds})"))
             elif {k: sorted(v) for k, v in o["map"][1].items()} != expmap:
-                out.append((f"map_obstacles_to_lanelets:{kinds}",
+                out.append((circ_sig(f"map_obstacles_to_lanelets:{kinds}", got_map=o["map"][1]),
                             f"map_obstacles_to_lanelets = {o['map'][1]}, brute force = {expmap}; obstacles {placed}"))
             expf = sorted({i for v in truth.values() for i in v})
             if o["filter"][0] != "ok":
                 out.append((f"filter_obstacles_in_network:raises:{o['filter'][1]}", f"raises {o['filter'][1]} ({kinds})"))
             elif sorted(o["filter"][1]) != expf:
-                out.append((f"filter_obstacles_in_network:{kinds}",
+                out.append((circ_sig(f"filter_obstacles_in_network:{kinds}", got_all=o["filter"][1]),
                             f"filter_obstacles_in_network = {sorted(o['filter'][1])}, brute force = {expf}; {placed}"))
     return out
 
@@ -738,6 +782,8 @@ def coq_terms(case):
     for qi, (q, o) in enumerate(zip(case["queries"], ob["q"])):
         if qi in ob["skip"]:
             continue
+        if q["k"] == "shape" and qi in ob.get("skip_corr", ()):
+            continue
         if q["k"] == "pos":
             qs.append(f"QPos {cpt(q['p'])} {cids(o['single'])}")
         elif q["k"] == "shape":
@@ -754,7 +800,7 @@ def coq_terms(case):
                     continue
                 for oid, raw in o["placed"].items():
                     ms = G.prims(raw)
-                    if len(ms) == 1:
+                    if len(ms) == 1 and int(oid) not in o.get("hb_maybe", {}).get(lid, ()):
                         terms.append(f"CMeets {cprim(ms[0])} {cring(ob['rings'][lid])} {qb(int(oid) in r[1])}")
     terms.append(f"CNet {qlist([cop(x) for x in ob['ops']])} {qlist(qs)}")
     return terms
